@@ -101,7 +101,7 @@ func (s *Solver) runScript(path, script string, skipStage1 bool) caseRes {
 	cr := caseRes{solverMs: map[string]int64{}}
 	specs := solverSpecs(s.timeoutS)
 	if skipStage1 {
-		return s.race(path, script, specs, cr)
+		return s.race(path, script, specs, cr, s.timeoutS)
 	}
 	finish := func(ans, solver, out string, ms int64) {
 		cr.answer, cr.solver, cr.ms, cr.out = ans, solver, ms, out
@@ -123,11 +123,11 @@ func (s *Solver) runScript(path, script string, skipStage1 bool) caseRes {
 		finish(ans, s1.Name, out, ms)
 		return cr
 	}
-	return s.race(path, script, specs, cr)
+	return s.race(path, script, specs, cr, s.timeoutS)
 }
 
 // race runs all solver configurations on the script; the first definite answer wins.
-func (s *Solver) race(path, script string, specs []SolverSpec, cr caseRes) caseRes {
+func (s *Solver) race(path, script string, specs []SolverSpec, cr caseRes, limitS int) caseRes {
 	finish := func(ans, solver, out string, ms int64) {
 		cr.answer, cr.solver, cr.ms, cr.out = ans, solver, ms, out
 		if ans == "sat" {
@@ -160,7 +160,7 @@ func (s *Solver) race(path, script string, specs []SolverSpec, cr caseRes) caseR
 				ch <- res{"cancelled", "", sp.Name, 0}
 				return
 			}
-			ctx3, cancel3 := context.WithTimeout(ctx2, time.Duration(s.timeoutS+2)*time.Second)
+			ctx3, cancel3 := context.WithTimeout(ctx2, time.Duration(limitS+2)*time.Second)
 			a, o, m := runOne(ctx3, sp, pth)
 			cancel3()
 			ch <- res{a, o, sp.Name, m}
@@ -252,12 +252,36 @@ func (s *Solver) Solve(u *Unit, o *Obligation) *Result {
 			u.mu.Unlock()
 			return r
 		}
+		// second: all solver configurations on the whole query with a moderate limit
+		{
+			lim := s.timeoutS
+			if lim > 8 {
+				lim = 8
+			}
+			cr := s.race(path0, whole, solverSpecs(lim), caseRes{solverMs: map[string]int64{}}, lim)
+			r.Ms += cr.ms
+			for k, v := range cr.solverMs {
+				r.SolverMs[k] += v
+			}
+			if cr.answer == "unsat" {
+				os.Remove(path0)
+				r.Status, r.Answer, r.Solver, r.Cases = "discharged", "unsat", cr.solver, 1
+				return r
+			}
+			if cr.answer == "sat" {
+				r.Status, r.Answer, r.Solver, r.Cases, r.Output, r.Script, r.Model = "failed", "sat", cr.solver, 1, cr.out, path0, cr.model
+				u.mu.Lock()
+				if u.failAsserts == nil {
+					u.failAsserts = map[*Obligation][]*Term{}
+				}
+				u.failAsserts[o] = asserts
+				u.mu.Unlock()
+				return r
+			}
+		}
 		os.Remove(path0)
 		u.mu.Lock()
 		cases = splitCases(tb, asserts, u.branchConds)
-		if len(cases) == 1 {
-			// nothing to split: go straight to the race on the whole query
-		}
 	}
 	var scripts []string
 	for _, c := range cases {
@@ -325,8 +349,10 @@ func (s *Solver) Solve(u *Unit, o *Obligation) *Result {
 	switch {
 	case o.IsCover && allOK:
 		r.Status = "cover-ok"
+	case o.IsCover && r.Answer == "unsat":
+		r.Status = "cover-failed" // the assumptions are contradictory
 	case o.IsCover:
-		r.Status = "cover-failed"
+		r.Status = "cover-unknown" // no answer within the limit: not an alarm, reported as unchecked
 	case allOK:
 		r.Status = "discharged"
 		if r.Answer != "syntactic" {
